@@ -218,6 +218,13 @@ def syntactic_frame_ok():
             txt = ast.unparse(lam)
             if not (isinstance(lam, ast.Lambda) and "['outpt_sk']" in txt.replace('"', "'") and ' in ' in txt):
                 ok = False
+        elif isinstance(p, ast.comprehension) and p.iter is u and isinstance(p.target, ast.Name):
+            # [x for x in user_def if v in x['outpt_sk']] : the same selection written as a comprehension
+            comp = parents[p]
+            conds = " and ".join(ast.unparse(c) for c in p.ifs).replace('"', "'")
+            if not (isinstance(comp, (ast.ListComp, ast.GeneratorExp)) and isinstance(comp.elt, ast.Name) and comp.elt.id == p.target.id
+                    and len(comp.generators) == 1 and (" in %s['outpt_sk']" % p.target.id) in conds):
+                ok = False
         elif isinstance(p, ast.Call) and isinstance(p.func, ast.Name) and p.func.id == node.name:
             pass
         else:
@@ -230,10 +237,16 @@ class FrameSyntactic(Case):
     tier = 'P'
     name = "compare_variables:user_instrs-observed-through-producer-filter"
     functions = (sv.compare_variables,)
+    stand_in = 'checker-on-mutants'
 
     def run(self, H):
         if H.symbolic:
-            H.check('syntactic-frame', syntactic_frame_ok())
+            if not syntactic_frame_ok():
+                # the argument that lifts the two-record cases to arbitrary tables no longer applies to this revision:
+                # nothing is refuted by that, the clause is undecided (the bounded checker-on-mutants case stands in)
+                from pyvc.sym import Unsupported
+                raise Unsupported("compare_variables uses its instruction tables in a way the frame argument does not cover")
+            H.check('syntactic-frame', True)
 
 
 def cases(tier='quick'):
@@ -458,17 +471,32 @@ from pyvc.symlist import SymList, ValCodec, LoopSpec
 
 
 class _TargetStackInv(LoopSpec):
-    """while i < len(tgt_origin): invariant  0 <= i <= n  and  forall j < i. den_o(tgt_origin[j]) = den_p(tgt_opt[j])"""
+    """the loop over the positions of the two target stacks, written with an index (while i < len(..): .. i += 1) or over
+    zip(tgt_origin, tgt_opt): invariant  0 <= i <= n  and  forall j < i. den_o(tgt_origin[j]) = den_p(tgt_opt[j])"""
+
+    def __init__(self, idx):
+        self.idx_name = idx            # None: the position is the ghost index of a for loop
 
     def havoc(self, it, fr, k):
-        fr.locals['i'] = it.path.fresh_int('i')
+        if self.idx_name is not None:
+            fr.locals[self.idx_name] = it.path.fresh_int('i')
 
     def inv(self, it, fr, k):
-        ie = sym._as_int_expr(fr.locals['i'])
-        to, tp = fr.locals['tgt_origin'], fr.locals['tgt_opt']
+        ie = sym._as_int_expr(fr.locals[self.idx_name] if self.idx_name is not None else k)
+        to, tp = it.cfg['to'], it.cfg['tp']
         j = z3.Int('j!inv')
         return z3.And(ie >= 0, ie <= to.n, to.n == tp.n,
                       z3.ForAll([j], z3.Implies(z3.And(j >= 0, j < ie), den_o(to.at(j)) == den_p(tp.at(j)))))
+
+
+def _classify_target_loop(node):
+    import ast
+    if isinstance(node, ast.While):
+        for n in ast.walk(node):
+            if isinstance(n, ast.AugAssign) and isinstance(n.op, ast.Add) and isinstance(n.target, ast.Name):
+                return _TargetStackInv(n.target.id), 'positions'
+        return None
+    return _TargetStackInv(None), 'positions'
 
 
 class CompareTargetStack(Case):
@@ -479,8 +507,9 @@ class CompareTargetStack(Case):
     name = "compare_target_stack(unbounded)"
     functions = (sv.compare_target_stack,)
     stubs = {'verification.sfs_verify.compare_variables': stub_compare_variables}
-    loops = {('verification.sfs_verify.compare_target_stack', 0): _TargetStackInv()}
+    loops = {('verification.sfs_verify.compare_target_stack', '*'): _classify_target_loop}
     native_cover = False
+    stand_in = 'checker-on-mutants'
 
     def run(self, H):
         if not H.symbolic:
@@ -489,6 +518,7 @@ class CompareTargetStack(Case):
         src = SrcStack()
         jo = {"src_ws": src, "tgt_ws": to, "user_instrs": []}
         jp = {"src_ws": src, "tgt_ws": tp, "user_instrs": []}
+        H.it.cfg = dict(to=to, tp=tp)
         out = H.call(sv.compare_target_stack, jo, jp)
         H.check('raises-nothing', out.ok, info=repr(out.exc))
         if not out.ok:
